@@ -42,3 +42,6 @@ Q("getb-explicit-none", "base.py", "    lb, ub = old_bound_to_new(bounds)\n",
 M("getb-huge-means-infinite", "base.py", "    lb, ub = old_bound_to_new(bounds)\n", "    lb, ub = old_bound_to_new(bounds)\n    ub = np.where(ub >= 1e20, np.inf, ub)\n", ["GETB"])
 Q("getb-astype", "base.py", "    lb, ub = old_bound_to_new(bounds)\n", "    lb, ub = old_bound_to_new(bounds)\n    lb = lb.astype(float)\n", ["GETB"])
 M("box-clip2bounds-swapped", "base.py", "    return np.clip(x0.T, lb, ub).T\n", "    return np.clip(x0.T, ub, lb).T\n", ["BOX"])
+
+# ---- FDB: the options are the caller's values (round 5)
+M("fdb-epsilon-derived-from-x0", "scalar_function.py", "        finite_diff_options = {}\n", "        finite_diff_options = {}\n        if epsilon is None:\n            epsilon = 1e-8 * np.maximum(1.0, np.abs(self.x))\n", ["FDB"])
